@@ -612,6 +612,13 @@ func composeMain() {
 			want = append(want, e.P+"."+e.Ph+"."+cs.Kind)
 		}
 		got, err := runCompose(&cs, len(want))
+		if ip, ok := err.(*inproc.InitPanic); ok {
+			// the broker cannot even start with these plugins: no wrapper is installed, nothing fires
+			atomic.AddInt64(&rep.N, 1)
+			rep.Div("compose:"+cs.Kind+":init-panic", fmt.Sprintf("broker with plugins %v (exposing the %s wrapper: %v), core hook %v panics in Init: %s",
+				cs.Order, cs.Kind, cs.Expose, cs.Core, ip.Value), js, map[string]interface{}{"want": want})
+			return
+		}
 		for try := 0; err != nil && try < 2; try++ {
 			rep.Count("retried", 1)
 			got, err = runCompose(&cs, len(want))
@@ -1179,6 +1186,7 @@ type world struct {
 	b     *inproc.Broker
 	sc    *script
 	obs   *peer
+	obs2  *peer // second observer with the narrow filter "+/2" (Hooks.tla Obs2Filter)
 	ver   byte
 	subj  map[string]*peer
 	sentN int
@@ -1205,6 +1213,17 @@ func newWorld(ver byte, subjects []string) (*world, error) {
 		w.close()
 		return nil, fmt.Errorf("observer got no SUBACK")
 	}
+	obs2, _, err := connectOK(b.Addr, mw.V5, "obs2", true, nil)
+	if err != nil {
+		w.close()
+		return nil, err
+	}
+	w.obs2 = obs2
+	obs2.c.Send(mw.Subscribe(obs2.pid(), mw.SubTopic{Filter: "+/2", QoS: 2}, mw.SubTopic{Filter: "$vs/obs2", QoS: 0}))
+	if _, ok, _ := obs2.wait(0, ackTO, isType(mw.SUBACK)); !ok {
+		w.close()
+		return nil, fmt.Errorf("second observer got no SUBACK")
+	}
 	return w, nil
 }
 
@@ -1215,6 +1234,9 @@ func (w *world) close() {
 	if w.obs != nil {
 		w.obs.close()
 	}
+	if w.obs2 != nil {
+		w.obs2.close()
+	}
 	w.b.Stop(5 * time.Second)
 }
 
@@ -1222,7 +1244,7 @@ func (w *world) close() {
 // so what was enqueued before has arrived when the sentinel has.
 func (w *world) barrier() error {
 	w.sentN++
-	ps := []*peer{w.obs}
+	ps := []*peer{w.obs, w.obs2}
 	for _, p := range w.subj {
 		ps = append(ps, p)
 	}
@@ -1246,7 +1268,7 @@ type obsv struct {
 }
 
 func (w *world) marks() map[string]int {
-	m := map[string]int{"obs": w.obs.mark()}
+	m := map[string]int{"obs": w.obs.mark(), "obs2": w.obs2.mark()}
 	for c, p := range w.subj {
 		m[c] = p.mark()
 	}
@@ -1267,6 +1289,7 @@ func (w *world) deliveries(marks map[string]int) []Dlv {
 		}
 	}
 	collect("obs", w.obs)
+	collect("obs2", w.obs2)
 	for c, p := range w.subj {
 		collect(c, p)
 	}
@@ -1468,7 +1491,7 @@ func (w *world) project(subjects []string) State {
 		}
 	}
 	w.b.Srv.SubscriptionService().Iterate(func(cid string, s *gmqtt.Subscription) bool {
-		if cid != "obs" && !strings.HasPrefix(s.TopicFilter, "$vs/") {
+		if cid != "obs" && cid != "obs2" && !strings.HasPrefix(s.TopicFilter, "$vs/") {
 			st.Subs = append(st.Subs, SubE{C: cid, F: s.GetFullTopicName(), Q: int(s.QoS)})
 		}
 		return true
